@@ -30,7 +30,7 @@ package proxy
 // (*http.Client).Do and those that failed; uplast is the response the last one returned.
 
 // A usable fetch result: a stored entry with metadata and an open body, or the origin's own response.
-//@ spec func specFetchShape(f any) bool = (f.Type == 0 || f.Type == 1) && (f.Type == 0 ==> f.Cached.Entry != nil && allocated(f.Cached.Entry) && f.Cached.Entry.Metadata != nil && allocated(f.Cached.Entry.Metadata) && f.Cached.Entry.Data != nil && f.Cached.Entry.Metadata.Size >= 0) && (f.Type == 1 ==> f.Direct.Response != nil && allocated(f.Direct.Response) && f.Direct.Response.Body != nil)
+//@ spec func specFetchShape(f any) bool = (f.Type == 0 || f.Type == 1) && (f.Type == 0 ==> f.Cached.Entry != nil && allocated(f.Cached.Entry) && f.Cached.Entry.Metadata != nil && allocated(f.Cached.Entry.Metadata) && f.Cached.Entry.Data != nil && f.Cached.Entry.Metadata.Size >= 0) && (f.Type == 1 ==> f.Direct.Response != nil && allocated(f.Direct.Response) && f.Direct.Response.Body != nil && f.Direct.fetchInfo.UpstreamStatus >= 100 && f.Direct.fetchInfo.UpstreamStatus <= 999)
 // net/http never hands out a header map with an empty value list.
 //@ spec func specHdrOK(h any) bool = h != nil && (forall k key :: in(h, k) ==> len(h[k]) > 0)
 // Errors of the fetch path are never the two Range outcomes processRequest tells apart.
@@ -92,6 +92,8 @@ package proxy
 //@   ensures specFetchErr(err)
 //@   ensures specReqOK(req) && req.ctx == old(req.ctx)
 //@   ensures [C05] upcancels >= old(upcancels) && (!ctxcancellable(old(req.ctx)) ==> upcancels == old(upcancels))
+//@   requires resp.StatusCode >= 100 && resp.StatusCode <= 999
+//@   ensures resp.StatusCode >= 100 && resp.StatusCode <= 999
 
 // 200 is stored when cacheable, 304 renews the stored entry, 416 is retried once;
 // every other answer is neither stored nor does it touch the cache.
@@ -109,6 +111,8 @@ package proxy
 //@   ensures specFetchErr(err)
 //@   ensures specReqOK(req) && req.ctx == old(req.ctx)
 //@   ensures [C05] upcancels >= old(upcancels) && (!ctxcancellable(old(req.ctx)) ==> upcancels == old(upcancels))
+//@   requires resp.StatusCode >= 100 && resp.StatusCode <= 999
+//@   ensures resp.StatusCode >= 100 && resp.StatusCode <= 999
 
 //@ props C09 C16
 //@ func fetcher.sendRequestToUpstream
@@ -121,6 +125,7 @@ package proxy
 //@   ensures specReqOK(req) && req.ctx == old(req.ctx)
 //@   ensures specFetchErr(result2)
 //@   ensures [C05] upcancels >= old(upcancels) && (!ctxcancellable(old(req.ctx)) ==> upcancels == old(upcancels))
+//@   ensures result2 == nil ==> result0.StatusCode >= 100 && result0.StatusCode <= 999
 
 // One origin fetch whose answer is stored when it may be.  It fails only when the origin
 // could not be reached; trouble on the cache side (store refused or failed, entry gone
@@ -309,6 +314,7 @@ package proxy
 //@   nopanic
 //@   assigns ghost:httpstatus ghost:httpwrites ghost:respbody
 //@   requires req != nil
+//@   requires [C16] status >= 100 && status <= 999
 //@   ensures httpwrites(r) == old(httpwrites(r)) + 1 && httpstatus(r) == status
 //@   ensures (forall w any :: w != r ==> httpwrites(w) == old(httpwrites(w)) && httpstatus(w) == old(httpstatus(w)) && respbody(w) == old(respbody(w)))
 //@   ensures req.Method != "HEAD" ==> respbody(r) == ident(resp)
@@ -399,3 +405,4 @@ package proxy
 //@   ensures upcancels >= old(upcancels) && (upcancels > old(upcancels) ==> result1 != nil && ctxcancellable(old(req.ctx)))
 //@   ensures specReqOK(req) && req.ctx == old(req.ctx)
 //@   ensures specFetchErr(result1)
+//@   ensures result1 == nil ==> result0.StatusCode >= 100 && result0.StatusCode <= 999
